@@ -11,4 +11,6 @@ for p in "$@"; do
 done
 rm -f /tmp/seedtest.$$.out
 git -C /repo checkout -- . 
+# the run on the changed source rewrote the regenerated tables and the evidence: put the committed ones back
+git -C /verif checkout -- lean/PsdVerif/Generated evidence 2>/dev/null
 git -C /repo status --porcelain --untracked-files=no
